@@ -70,6 +70,11 @@ CHECKS = {
    category="model_checking", design_ref="§5 C17",
    text="Token level: exhaustive up to the bound for both start symbols, with the spec prescribing accept/reject; character level: whitespace variants, alphabet-restricted random text, arbitrary Unicode (generated, not exhausted). Only Unit/Quantity results or ParseError/KeyError are allowed; a second parse must agree; name/symbol registries must be unchanged; int tokens give int magnitudes and float tokens floats.",
    note="Model checking at token level; exploration strength for arbitrary text (stated in evidence)."),
+
+ "C14": dict(engine="uncertainty", technique="TLA+ spec (Uncertainty.tla over Quantities.tla: exact rational variance by first-order propagation) with TLC enumerating operator x operand cases; each replayed on the real library comparing measurand and uncertainty^2",
+   category="model_checking", design_ref="§5 C14",
+   text="For +, -, *, / (measurement or plain quantity on either side) and integer powers -4..4 over a grid of measurands (both signs, zero), uncertainties (zero included) and unit re-expressions, TLC computes the exact physical measurand and variance; the real library's result is mapped to SI with exact sizes and compared (1e-9 on the variance); exceptions where the formula is finite are violations; cases run in fresh forks and in shared processes in two orders.",
+   note="Rational grid; the code's float square root is squared by alpha; independence of inputs is the property's own assumption."),
 }
 BUILT = set(CHECKS)
 m = {"version": 1, "setup_cmd": "./setup.sh",
@@ -83,6 +88,7 @@ m = {"version": 1, "setup_cmd": "./setup.sh",
    {"name": "temperature", "path": "spec/Temp.tla spec/MC_Temp.tla harness/temperature.py", "serves_properties": ["C10"], "kind_free_text": "TLC exact affine oracle + replay"},
    {"name": "intern", "path": "spec/InternAtomic.tla spec/MC_InternTrace.tla spec/InternShipped.tla harness/sched.py harness/intern.py", "serves_properties": ["C20"], "kind_free_text": "systematic schedule exploration of the real code + TLC trace validation (linearizability)"},
    {"name": "lr", "path": "spec/LR.tla spec/MC_LR.tla harness/lr.py", "serves_properties": ["C16", "C17"], "kind_free_text": "complete product of LALR tables + LR interpreter + engine trace validation + differential parsing"},
+   {"name": "uncertainty", "path": "spec/Uncertainty.tla spec/MC_Uncertainty.tla harness/uncertainty.py", "serves_properties": ["C14"], "kind_free_text": "TLC exact variance oracle + replay"},
    {"name": "registry", "path": "spec/Registry.tla spec/MC_Registry.tla harness/registry.py harness/alpha.py", "serves_properties": ["C01", "C02", "C15"], "kind_free_text": "TLC model checking + spec->code replay of every transition (fork tree)"},
  ],
  "checks": [], "notes": "Every check: ./check <id> [--tier quick|thorough]; exit 0 held / 1 VIOLATION / 2 machinery failure. known_findings.txt lists genuine defects left unrepaired and repairs made.",
